@@ -106,7 +106,54 @@ func prop(c Case) error {
 	if err != nil {
 		return fmt.Errorf("geometry parsed from spelling not well formed: %v", err)
 	}
-	return same(fmt.Sprintf("Unmarshal(spelling %q)", clip(c.Text)), g, spm)
+	if err := same(fmt.Sprintf("Unmarshal(spelling %q)", clip(c.Text)), g, spm); err != nil {
+		return err
+	}
+	// (d) the text is that of the coordinates as they are now: x and y of every
+	// coordinate are exchanged in place (rings stay closed) and the same object is
+	// marshalled again
+	if !swapXY(t) {
+		return nil
+	}
+	g2, err := model.FromGeom(t)
+	if err != nil {
+		return fmt.Errorf("harness: geometry ill formed after exchanging x and y: %v", err)
+	}
+	if g.IsCollection() {
+		g2.Layout = g.Layout // the fixed layout of a collection is not observable through its members
+	}
+	text2, err := wkt.Marshal(t)
+	if err != nil {
+		return fmt.Errorf("wkt.Marshal after x and y were exchanged in place: %v", err)
+	}
+	rm2, err := refwkt.Read(text2)
+	if err != nil {
+		return fmt.Errorf("reference reader rejects the text written after x and y were exchanged in place: %v\ntext: %s", err, text2)
+	}
+	return same("Marshal of the same object after x and y were exchanged in place [text "+clip(text2)+"]", g2, rm2)
+}
+
+// swapXY exchanges x and y of every coordinate of every leaf, in place; false if
+// there was nothing to exchange.
+func swapXY(t geom.T) bool {
+	if gc, ok := t.(*geom.GeometryCollection); ok {
+		any := false
+		for _, m := range gc.Geoms() {
+			if swapXY(m) {
+				any = true
+			}
+		}
+		return any
+	}
+	stride := t.Stride()
+	if stride < 2 {
+		return false
+	}
+	fc := t.FlatCoords()
+	for i := 0; i+1 < len(fc); i += stride {
+		fc[i], fc[i+1] = fc[i+1], fc[i]
+	}
+	return len(fc) > 0
 }
 
 func clip(s string) string {
